@@ -626,11 +626,11 @@ theorem C01_notification_msg {s : Sess} {i : Nat} (h : Norm s i) (e sub : UInt8)
     · rcases hst with h1 | h1 | h1
       · have : ((s.bumpRecv i incNotifications).emit (.hNotification i d)).st = .openSent := h1
         simp only [this]
-        rw [closeConn_norm (hn.setRetry none)]
+        rw [closeConn_norm (((hn.setRetry none).setHold none).setKeepalive none)]
         simp
       · have : ((s.bumpRecv i incNotifications).emit (.hNotification i d)).st = .openConfirm := h1
         simp only [this]
-        rw [closeConn_norm (hn.setRetry none)]
+        rw [closeConn_norm (((hn.setRetry none).setHold none).setKeepalive none)]
         simp
       · have : ((s.bumpRecv i incNotifications).emit (.hNotification i d)).st = .established := h1
         simp only [this]
@@ -645,11 +645,11 @@ theorem C01_notification_msg {s : Sess} {i : Nat} (h : Norm s i) (e sub : UInt8)
     · rcases hst with h1 | h1 | h1
       · have : ((s.bumpRecv i incNotifications).emit (.hNotification i d)).st = .openSent := h1
         simp only [this]
-        rw [closeConn_norm (hn.setRetry none)]
+        rw [closeConn_norm (((hn.setRetry none).setHold none).setKeepalive none)]
         simp [setPhase, setDisconnected, setConn, bumpRecv]
       · have : ((s.bumpRecv i incNotifications).emit (.hNotification i d)).st = .openConfirm := h1
         simp only [this]
-        rw [closeConn_norm (hn.setRetry none)]
+        rw [closeConn_norm (((hn.setRetry none).setHold none).setKeepalive none)]
         simp [setPhase, setDisconnected, setConn, bumpRecv]
       · have : ((s.bumpRecv i incNotifications).emit (.hNotification i d)).st = .established := h1
         simp only [this]
